@@ -234,7 +234,9 @@ void h_bmod2D_mv2(void) {
   if (in_w == 3 && !BLAS(0) && !BLAS(1) && BLAS(2)) __CPROVER_assert(0, "canary: single BLAS column in the last position");
 #endif
   if (BLAS(0) && SNODE_END == LUC && in_w*(in_maxsuper + in_rowblk) == TVC && in_m == M && in_w == W && g_lptr + in_nsupr == LC) __CPROVER_assert(0, "canary: lusup, tempv, dense, lsub exactly filled");
+#if W >= 3
   if (g_blas.mv2_calls >= 2) __CPROVER_assert(0, "canary: two matvec2 calls");
+#endif
   if (g_blas.gemv_calls >= 3) __CPROVER_assert(0, "canary: three gemv calls");
 #endif
 }
